@@ -195,6 +195,10 @@ func (l *Lifter) enterRange(s *ast.RangeStmt) (n int) {
 		if isMapType(l.Info.TypeOf(s.X)) {
 			l.pushRename(id.Name, fmt.Sprintf("$k%d", d))
 			n++
+		} else if s.Value == nil {
+			// for i := range xs { … xs[i] … }: the element through its index
+			l.pushRename("\x00"+Canon(&ast.IndexExpr{X: s.X, Index: id}), fmt.Sprintf("$v%d", d))
+			n++
 		}
 	}
 	if id, ok := s.Value.(*ast.Ident); ok && id.Name != "_" {
